@@ -36,6 +36,8 @@ class ManualExecutor(Executor):
         self.n += 1
         k = self.n
         p = self.plan.get(sub, self.plan.get(str(sub), {}))
+        if p.get("submit_delay"):
+            E.vsleep(p["submit_delay"])     # a delegate whose submit() itself takes time (bounded queue, remote call)
         fut = Future()
         fut._mxv_sub = sub
         retain = not self.plan.get("_noretain")
